@@ -76,6 +76,9 @@ type Contract struct {
 	AllocBound  *Clause
 	NilRecvOK   bool
 	SpecOnly    bool
+	Unverified  []string // interface contract: implementing types whose refinement is assumed, not proved
+	CheckAlias  bool // emit alias obligations on append into non-fresh spare capacity (C09/C10)
+	IsIface     bool // interface-level contract: <Iface>.<Method>
 	InlineAll   bool // harness: same-package callees are inlined instead of used by contract
 }
 
@@ -150,7 +153,7 @@ func (ss *SpecSet) parseSpec(text, path, pkgPath string) error {
 		switch kw {
 		case "props":
 			defaultProps = strings.Fields(rest)
-		case "func", "trusted":
+		case "func", "trusted", "interface":
 			name := rest
 			trusted := kw == "trusted"
 			if trusted {
@@ -164,7 +167,7 @@ func (ss *SpecSet) parseSpec(text, path, pkgPath string) error {
 				key = name
 			}
 			cur = &Contract{Key: key, File: path, Line: ln + 1, LoopInv: map[int][]*Clause{}, LoopDec: map[int]*Clause{}, Trusted: trusted,
-				Props: append([]string(nil), defaultProps...)}
+				Props: append([]string(nil), defaultProps...), IsIface: kw == "interface"}
 			if _, dup := ss.Contracts[key]; dup {
 				return fail(fmt.Errorf("duplicate contract for %s", key))
 			}
@@ -230,6 +233,10 @@ func (ss *SpecSet) parseSpec(text, path, pkgPath string) error {
 			cur.Inline = true
 		case "inline-calls":
 			cur.InlineAll = true
+		case "unverified":
+			cur.Unverified = append(cur.Unverified, strings.Fields(rest)...)
+		case "no-alias-writes":
+			cur.CheckAlias = true
 		case "spec-only":
 			cur.SpecOnly = true
 		case "nil-receiver-ok":
